@@ -44,7 +44,7 @@ class C05(Check):
                    'with several driver tasks the final cache entry must equal the effect of an operation that no '
                    'other completed operation on that parameter strictly follows (event sequence numbers)']
     PROBES = ('c05.recovery-same-value', 'c05.suppressed-unchanged', 'c05.repeated-error', 'c05.invalid-read',
-              'c05.concurrent-same-param', 'c05.late-activation')
+              'c05.concurrent-same-param', 'c05.late-activation', 'fault.parameter-callback-raised')
 
     def gen_case(self, rng, tier):
         specs = []
@@ -90,6 +90,15 @@ class C05(Check):
                  'specs': specs, 'ntasks': ntasks, 'slow_consumer': rng.random() < 0.15,
                  'late_activate': rng.choice([None, None, 0, 0.001, 0.05, 0.3]),
                  'extra_clients': rng.choice([0, 0, 1, 2])}
+        if rng.random() < 0.3:
+            # parameter callbacks of the application (an automatic save, an update_ hook) which fail now and then
+            shape['cb_faults'] = {}
+            for s in specs:
+                for p in s['params']:
+                    if rng.random() < 0.5:
+                        shape['cb_faults'][f'{s["name"]}.{p["name"]}'] = {
+                            'exc': rng.choice(['OSError', 'KeyError', 'ValueError', 'RuntimeError', 'ZeroDivisionError']),
+                            'every': rng.choice([1, 2, 3])}
         return {'shape': shape, 'ops': ops}
 
     def shrink_candidates(self, case):
@@ -114,6 +123,8 @@ class C05(Check):
         node = nodeworld.Node(world, 'n', shape['specs'], drv)
         ctx['cleanup'] = [node.forget]
         node.watch_cache()
+        if shape.get('cb_faults'):
+            node.add_flaky_callbacks(shape['cb_faults'])
         ctx['initial'] = {k: (sim.next_seq(), v) for k, v in node.cache().items()}
         ctx['history'] = node.history
         single = shape['ntasks'] == 1
@@ -226,7 +237,7 @@ class C05(Check):
             c2 = late['client'] = nodeworld.RawClient(world)
             r2 = c2.request('activate', timeout=60)
             late['activated'] = r2 is not None and r2[2].raw == b'active'
-            sim.count('c05.late-activation')
+            sim.count('c05.late-activation', 'fault.parameter-callback-raised')
         lt = None
         if shape.get('late_activate') is not None:
             lt = threading.Thread(target=late_client, name='late-client')
